@@ -264,7 +264,7 @@ func (s *Session) CloseAsync() {
 	}()
 }
 
-func (s *Session) counts() (lastChange, lastRequest, sent, starts, dones, lastEnd int) {
+func (s *Session) counts() (lastChange, lastRequest, sent, starts, dones, lastEnd, reqOpen int) {
 	lastChange, lastRequest, lastEnd = -1, -1, -1
 	for i, e := range s.trace {
 		switch e.K {
@@ -272,8 +272,12 @@ func (s *Session) counts() (lastChange, lastRequest, sent, starts, dones, lastEn
 			lastChange = i
 		case "request":
 			lastRequest = i
+			reqOpen++
 		case "request_sent":
 			sent++
+			reqOpen--
+		case "request_coalesced":
+			reqOpen--
 		case "compile_start":
 			starts++
 		case "broadcast_done":
@@ -354,11 +358,11 @@ func (s *Session) Quiesce(idle, timeout time.Duration) bool {
 	ok := false
 	for time.Now().Before(deadline) {
 		s.mu.Lock()
-		lc, lr, sent, starts, dones, _ := s.counts()
+		lc, lr, sent, starts, dones, _, reqOpen := s.counts()
 		quiet := time.Since(s.lastEv) >= idle
 		busy := s.clientsBusyLocked()
 		s.mu.Unlock()
-		if quiet && lr > lc && sent == starts && starts == dones && !busy {
+		if quiet && lr > lc && sent == starts && starts == dones && reqOpen == 0 && !busy {
 			ok = true
 			break
 		}
